@@ -6,7 +6,7 @@ import os
 
 import vlib
 
-KIND_OWNER = {"decision": None, "foreign": "C04", "x32": "C04", "invalid": "C05", "accept": "C07", "panic": "C07", "determinism": "C13"}
+KIND_OWNER = {"decision": None, "foreign": "C04", "x32": "C04", "invalid": "C05", "accept": "C07", "panic": "C07", "determinism": "C13", "dump": "-"}
 
 
 def consts(scope, W=1, X32Bit=4, NSys=2, MaxSkip=255, dev="{}"):
@@ -46,7 +46,7 @@ def account(ctx, summary, failures, mine, decision_owner):
     cov["evaluations"] += summary["events"]
     cov["distinct_nontrivial"] += summary["distinct_nontrivial"]
     cov["traces_validated_against_impl"] += summary["compilations"]
-    cov.setdefault("replayed", []).append({k: summary[k] for k in ("scope", "cases", "compilations", "accepted", "rejected", "events", "drift", "programs_over_255", "xnet_crosschecked")})
+    cov.setdefault("replayed", []).append({k: summary[k] for k in ("scope", "cases", "compilations", "accepted", "rejected", "events", "drift", "programs_over_255", "xnet_crosschecked", "dump_checked")})
     for s in summary["samples"] or []:
         ctx.sample(s)
     for d in summary["drift_sample"] or []:
